@@ -74,10 +74,10 @@ CLAIMED = {
          "Sampling beyond the enumerated sweep; the storage back end is the simulated disk (individual operations atomic).",
          "6 C09"),
  "C13": ("exploration",
-         "deterministic simulation: reference-model comparison of the real request queue over seeded and bounded-exhaustive operation sequences (component engine); wire-level window oracle in whole-node simulated runs",
-         "Every operation sequence explored leaves the real state.State request queue equal to a reference queue model written from the statement (order, window of ten, byte pause, unrequested ignored, clear-after, byte counter zero when nothing buffered); all sequences up to a bounded depth are enumerated, longer ones are seeded.",
-         "Sampling beyond the enumerated depth; fake block bodies with chosen sizes stand in for wire blocks at component level.",
-         "6 C13"),
+         "deterministic simulation: reference-model comparison of the real request queue over seeded and bounded-exhaustive operation sequences (component level); wire-level window oracle in whole-node simulated runs (chain scripts with reorgs, reordered / duplicated / stalled / unsolicited block deliveries, connection faults, restarts) judged from the node's written getdata history and the HandleHeaders history",
+         "Every operation sequence explored leaves the real state.State request queue equal to a reference queue model written from the statement (order, window of ten, byte pause, unrequested ignored, clear-after, byte counter zero when nothing buffered); all sequences up to a bounded depth are enumerated, longer ones are seeded. In whole-node runs block requests are written in chain order without skipping, a new branch is requested from its fork point, no block is requested twice on a connection unless its branch was abandoned in between, at most ten requested blocks are unannounced (+1 being processed), and no block is announced that the node never requested (unsolicited bodies ignored).",
+         "Sampling beyond the enumerated depth; fake block bodies with chosen sizes stand in for wire blocks at component level. The wire-level bound is eleven because a block that left the window for processing is announced only when processing ends.",
+         "6 C13, 12.2"),
 }
 
 ALL = ["C%02d" % i for i in range(1, 21)]
